@@ -63,7 +63,9 @@ CHECKS = {
              "harness": ["main/kit_test.go", "main/epochkit_test.go", "main/grpckit_test.go", "main/c18_test.go", "main/c09_test.go", "main/c09_handlers_test.go", "main/c09_unmap_test.go"],
              "instrument": [job("$REPO", MOD, ["multiepoch.go", "first-success.go", "epoch.go", "storage.go", "multiepoch-getBlock.go", "multiepoch-getTransaction.go", "multiepoch-getBlockTime.go", "grpc-server.go"],
                                 imports={"golang.org/x/sync/errgroup": MOD + "/zzverif/verrgroup", "golang.org/x/exp/mmap": MOD + "/zzverif/vmmap",
-                                         "github.com/ipld/go-car/v2": MOD + "/zzverif/vcarv2"}), ERRGROUP] + EPOCH_PERF},
+                                         "github.com/ipld/go-car/v2": MOD + "/zzverif/vcarv2"}),
+                            job("$REPO/huge-cache", MOD + "/huge-cache", ["cache.go"], sync=False, imports={"github.com/allegro/bigcache/v3": MOD + "/zzverif/vbigcache"}),
+                            ERRGROUP] + EPOCH_PERF},
             {"name": "reload-cuts", "run": "^TestVerif_C09_ReloadCuts$",
              "harness": ["main/kit_test.go", "main/epochkit_test.go", "main/c09_reload_cuts_test.go"], "instrument": EPOCH_PERF},
             {"name": "race", "run": "^TestVerif_C09_Race$", "race": True, "tiers": ["thorough"], "shards": {"thorough": 1, "quick": 1},
